@@ -150,6 +150,10 @@ func c15Viol(r *ev.Result, sig, what, op string, data []byte) {
 // c15CheckEncode checks one input against the reference encoder, the
 // decoder and the purity/length clauses.  want may be nil to use the
 // reference encoder.
+// c15Prefix is what a destination holds already: bytes the codec itself
+// treats specially (a space, a backtick, a newline, a length character).
+const c15Prefix = "P `\nM"
+
 func c15CheckEncode(r *ev.Result, class string, src []byte) {
 	/* Source lives in the middle of a sentinel-filled buffer with spare
 	capacity, so any in-place padding or scribbling is seen. */
@@ -161,7 +165,7 @@ func c15CheckEncode(r *ev.Result, class string, src []byte) {
 	s := back[8 : 8+len(src)] /* cap extends into the sentinel */
 	/* Destination is a sentinel prefix with spare capacity. */
 	dback := make([]byte, 5, 5+uu.MaxEncodedLen(src)+8)
-	copy(dback, "PREFX")
+	copy(dback, c15Prefix)
 	var got []byte
 	func() {
 		defer func() {
@@ -175,7 +179,7 @@ func c15CheckEncode(r *ev.Result, class string, src []byte) {
 		return
 	}
 	want := refEncode(src)
-	if !bytes.HasPrefix(got, []byte("PREFX")) {
+	if !bytes.HasPrefix(got, []byte(c15Prefix)) {
 		c15Viol(r, "encode-dst-prefix/"+class, "AppendEncode changed the existing contents of dst", "encode", src)
 		return
 	}
@@ -191,14 +195,14 @@ func c15CheckEncode(r *ev.Result, class string, src []byte) {
 	}
 	/* A destination without any spare capacity (the append has to move
 	it): its contents come along. */
-	tight := []byte("PREFX")[:5:5]
+	tight := []byte(c15Prefix)[:5:5]
 	var got2 []byte
 	func() {
 		defer func() { recover() }()
 		got2 = uu.AppendEncode(tight, s)
 	}()
-	if nil != got2 && (!bytes.HasPrefix(got2, []byte("PREFX")) || !bytes.Equal(got2[5:], want)) {
-		c15Viol(r, "encode-dst-prefix/"+class, fmt.Sprintf("AppendEncode to a full destination: result begins %q, want the destination's %q followed by the encoding", trunc(got2[:min(len(got2), 8)]), "PREFX"), "encode", src)
+	if nil != got2 && (!bytes.HasPrefix(got2, []byte(c15Prefix)) || !bytes.Equal(got2[5:], want)) {
+		c15Viol(r, "encode-dst-prefix/"+class, fmt.Sprintf("AppendEncode to a full destination: result begins %q, want the destination's %q followed by the encoding", trunc(got2[:min(len(got2), 8)]), c15Prefix), "encode", src)
 	}
 	/* Round trip through the decoder. */
 	c15CheckDecode(r, class, want, src, true)
@@ -230,7 +234,7 @@ func c15CheckDecode(r *ev.Result, class string, enc, orig []byte, mustEqual bool
 	copy(back[8:], enc)
 	s := back[8 : 8+len(enc)]
 	dback := make([]byte, 5, 5+len(enc)+8)
-	copy(dback, "PREFX")
+	copy(dback, c15Prefix)
 	var (
 		got      []byte
 		err      error
@@ -251,18 +255,18 @@ func c15CheckDecode(r *ev.Result, class string, enc, orig []byte, mustEqual bool
 	if !bytes.Equal(back[8:8+len(enc)], enc) || !allA5(back[:8]) || !allA5(back[8+len(enc):]) {
 		c15Viol(r, "decode-src-modified/"+class, "AppendDecode modified its source", "decode", enc)
 	}
-	if string(dback[:5]) != "PREFX" {
+	if string(dback[:5]) != c15Prefix {
 		c15Viol(r, "decode-dst-prefix/"+class, "AppendDecode changed the existing contents of dst", "decode", enc)
 	}
 	if nil == err {
-		tight := []byte("PREFX")[:5:5]
+		tight := []byte(c15Prefix)[:5:5]
 		var got2 []byte
 		func() {
 			defer func() { recover() }()
 			got2, _ = uu.AppendDecode(tight, s)
 		}()
-		if nil != got2 && (!bytes.HasPrefix(got2, []byte("PREFX")) || !bytes.Equal(got2[5:], got[min(5, len(got)):])) {
-			c15Viol(r, "decode-dst-prefix/"+class, fmt.Sprintf("AppendDecode to a full destination: result begins %q, want the destination's %q followed by the decoded bytes", trunc(got2[:min(len(got2), 8)]), "PREFX"), "decode", enc)
+		if nil != got2 && (!bytes.HasPrefix(got2, []byte(c15Prefix)) || !bytes.Equal(got2[5:], got[min(5, len(got)):])) {
+			c15Viol(r, "decode-dst-prefix/"+class, fmt.Sprintf("AppendDecode to a full destination: result begins %q, want the destination's %q followed by the decoded bytes", trunc(got2[:min(len(got2), 8)]), c15Prefix), "decode", enc)
 		}
 	}
 	if nil != err {
@@ -291,7 +295,7 @@ func c15CheckDecode(r *ev.Result, class string, enc, orig []byte, mustEqual bool
 		c15Viol(r, "decode-invalid-accepted/"+class, fmt.Sprintf("AppendDecode returned %d bytes and no error although line %d (offset %d) of the input is not valid uuencoded text: %q", len(got)-5, wl, wo, trunc(enc)), "decode", enc)
 		return false
 	}
-	if !bytes.HasPrefix(got, []byte("PREFX")) {
+	if !bytes.HasPrefix(got, []byte(c15Prefix)) {
 		c15Viol(r, "decode-dst-prefix/"+class, "AppendDecode result does not extend dst", "decode", enc)
 		return false
 	}
